@@ -2,6 +2,9 @@
 """Regenerate model_anchors.json (reference AST fingerprints of every modelled function) from the CURRENT /repo.
 Run by hand after the models were brought in line with /repo; never at check time."""
 import importlib, json, os, sys
+if sys.version_info[:2] != (3, 12) and os.path.exists("/venv/bin/python"):
+    # the fingerprints are `ast.dump`s: they must be made by the interpreter the checks run under (/venv/bin/python)
+    os.execv("/venv/bin/python", ["/venv/bin/python"] + sys.argv)
 here = os.path.dirname(os.path.dirname(os.path.abspath(__file__)))
 sys.path.insert(0, os.path.join(here, "harness"))
 import vlib
